@@ -202,6 +202,7 @@ func cmdCheck(args []string) int {
 }
 
 type CheckResult struct {
+	prog        *Prog
 	Prop        string
 	Tier        string
 	Seed        int
@@ -237,7 +238,7 @@ type CheckResult struct {
 }
 
 func (p *Prog) CheckProperty(prop, tier string, seed int) *CheckResult {
-	res := &CheckResult{Prop: prop, Tier: tier, Seed: seed, Backends: map[string]int{}, Trusted: map[string]bool{}, Assumed: map[string]bool{}, Inlined: map[string]bool{}, Unspec: map[string]bool{}, Bounded: map[string]bool{}, NoInv: map[string]bool{}, OutOfSubset: map[string]bool{}, Skipped: map[string]bool{}, Stale: map[string]bool{}, Extra: map[string]interface{}{}}
+	res := &CheckResult{prog: p, Prop: prop, Tier: tier, Seed: seed, Backends: map[string]int{}, Trusted: map[string]bool{}, Assumed: map[string]bool{}, Inlined: map[string]bool{}, Unspec: map[string]bool{}, Bounded: map[string]bool{}, NoInv: map[string]bool{}, OutOfSubset: map[string]bool{}, Skipped: map[string]bool{}, Stale: map[string]bool{}, Extra: map[string]interface{}{}}
 	units := p.unitsForProperty(prop)
 	res.Units = units
 	timeout := 10000
@@ -567,7 +568,7 @@ func (r *CheckResult) writeEvidence() {
 	trusted := []string{
 		"go/types + go/ssa front end (golang.org/x/tools v0.29.0, vendored) producing the SSA that is symbolically executed",
 		"walvc VC generator (/verif/vc): encoding of Go semantics into SMT-LIB (machine integers as bit-vectors, slices as arrays+base/len/cap)",
-		"SMT solvers z3 4.8.12, z3-new 5.1.0, cvc5 1.0 (first definitive answer wins; thorough tier cross-checks all three)",
+		"SMT solvers z3 4.8.12, z3-new 5.1.0, cvc5 1.0 (first definitive answer wins; the thorough tier re-decides every proved obligation with a solver of the other family)",
 	}
 	for _, k := range keys(r.Trusted) {
 		trusted = append(trusted, "assumed dependency contract (intrinsic): "+k)
@@ -587,6 +588,40 @@ func (r *CheckResult) writeEvidence() {
 	}
 	for _, a := range propertyAssumptions[r.Prop] {
 		assumptions = append(assumptions, a)
+	}
+	// contracts that are assumed rather than proved in this repository:
+	// interface-level contracts, and every clause explicitly labelled assumed-*
+	if r.prog != nil {
+		for _, k := range keys(r.Assumed) {
+			ct := r.prog.contracts.Funcs[strings.TrimSuffix(k, " (callback invariant)")]
+			if ct == nil {
+				continue
+			}
+			if ct.IsIface {
+				assumptions = append(assumptions, "interface contract assumed for every implementation (linked to the repository's implementation by reading, see the comment at the contract): "+k)
+			}
+			if ct.Trusted != "" {
+				assumptions = append(assumptions, "trusted contract (body not verified): "+k+" -- "+ct.Trusted)
+			}
+			for _, cl := range append(append([]*Clause(nil), ct.Ensures...), ct.Requires...) {
+				for _, l := range cl.Labels {
+					if strings.HasPrefix(l, "assumed-") {
+						assumptions = append(assumptions, fmt.Sprintf("[%s] %s of %s: %s", l, cl.Kind, k, cl.Src))
+					}
+				}
+			}
+		}
+		for _, u := range r.Units {
+			if ct := r.prog.contracts.Funcs[u]; ct != nil {
+				for _, cl := range ct.Requires {
+					for _, l := range cl.Labels {
+						if strings.HasPrefix(l, "assumed-") {
+							assumptions = append(assumptions, fmt.Sprintf("[%s] precondition of %s: %s", l, u, cl.Src))
+						}
+					}
+				}
+			}
+		}
 	}
 	cov := map[string]interface{}{
 		"obligations":               r.NObl,
